@@ -24,6 +24,24 @@ def proc_udp_row(port: int) -> Optional[Dict[str, int]]:
     return None
 
 
+def reclaim_leaked_datagram_sockets(ports) -> int:
+    """Close asyncio datagram transports still bound to one of `ports` that nobody can stop any more (leaked by the code under
+    test).  Only used to keep the harness going after it has already reported the leak.  -> number closed."""
+    import gc
+
+    wanted, closed = set(ports), 0
+    for obj in gc.get_objects():
+        if type(obj).__name__ == "_SelectorDatagramTransport":
+            try:
+                name = obj.get_extra_info("sockname")
+                if name and name[1] in wanted and not obj.is_closing():
+                    obj.close()
+                    closed += 1
+            except Exception:
+                pass
+    return closed
+
+
 def can_bind(port: int) -> bool:
     s = socket.socket(socket.AF_INET, socket.SOCK_DGRAM)
     try:
@@ -119,12 +137,17 @@ class UdpRig:
 
     # ---- ports
     def free_ports(self, n: int) -> List[int]:
-        out = []
+        out, tried = [], 0
         while len(out) < n:
             p = self.base + (self._next % 390)
             self._next += 1
+            tried += 1
             if can_bind(p):
                 out.append(p)
+            elif tried > 800:
+                # a bridge under test that leaks its sockets can use up the whole block: reclaim what the garbage collector can find
+                if reclaim_leaked_datagram_sockets(range(self.base, self.base + 390)) == 0 or tried > 2400:
+                    raise RuntimeError("no free UDP port left in this worker's block")
         return out
 
     # ---- sending
